@@ -361,6 +361,18 @@ Proof.
   rewrite (pfs_okmap d H). reflexivity.
 Qed.
 
+Lemma pfs_item2 v : item2 v = true -> pfs v = Err MalformedPath.
+Proof.
+  intros H. destruct v; try (rewrite pfs_nondict by reflexivity; reflexivity).
+  exact (pfs_okmap d H).
+Qed.
+
+Lemma coerce_tuple_item2 l : forallb item2 l = true -> coerce_tuple pfs l = Ok tt.
+Proof.
+  induction l as [|v l IH]; cbn [forallb coerce_tuple]; [reflexivity|].
+  intros H. apply andb_true_iff in H as [Hv Hl]. rewrite (pfs_item2 v Hv). exact (IH Hl).
+Qed.
+
 Lemma coerce_items_item2 l : forallb item2 l = true -> coerce_items pfs l = Ok (map inr l).
 Proof.
   induction l as [|v l IH]; cbn [forallb coerce_items map]; [reflexivity|].
@@ -386,7 +398,7 @@ Proof.
     + cbn [coerce]. rewrite (coerce_items_item2 l H). reflexivity.
     + cbn [coerced_val]. rewrite item_val_inr. reflexivity.
   - cbn [plain2] in H. exists (CSeq true (map inr l)). split.
-    + cbn [coerce]. rewrite (coerce_items_item2 l H). cbn [bind]. rewrite no_inl_inr. reflexivity.
+    + cbn [coerce]. rewrite (coerce_tuple_item2 l H). reflexivity.
     + cbn [coerced_val]. rewrite item_val_inr. reflexivity.
   - cbn [plain2] in H. apply andb_true_iff in H as [Hk Hv]. exists (CDict (map inr_kv d)). split.
     + unfold coerce. rewrite (pfs_okmap d Hk), (coerce_kvs_item2 d Hv). reflexivity.
@@ -1284,15 +1296,14 @@ Example C11_items_path_repaired :
   q_items_nopath (Q_items_contain [("path", VInt 1)]) = false.
 Proof. vm_compute. repeat split. Qed.
 
-(* (b2) ... but from_spec moves the un-escaped names to the end: with an item name containing
-   "path" BEFORE another item, the rebuilt condition has its items in another order (`==` holds,
-   `c2 = c1` does not) and the data written again is the same mapping only up to key order, as
-   in (e).  q_items_ok (the side condition of C09) holds here: this is why the fragment has
-   q_items_nopath in addition. *)
+(* (b2) from_spec used to move the un-escaped names to the end (and could let one overwrite
+   another: repaired defect D48); it now un-escapes in place, so an item name containing "path"
+   BEFORE another item round-trips with the order kept.  The fragment still has q_items_nopath
+   (sufficient, not necessary): the general statement for escaped names is not attempted. *)
 Example C11_counterexample_items_path_order :
   roundtrip (L SValue (Q_items_contain [("path", VInt 1); ("a", VInt 2)])) =
     Ok (VDict [(VStr "value.items_contain", VDict [(VStr "\path", VInt 1); (VStr "a", VInt 2)])], true, true,
-        VDict [(VStr "value.items_contain", VDict [(VStr "a", VInt 2); (VStr "\path", VInt 1)])]) /\
+        VDict [(VStr "value.items_contain", VDict [(VStr "\path", VInt 1); (VStr "a", VInt 2)])]) /\
   q_items_ok (Q_items_contain [("path", VInt 1); ("a", VInt 2)]) = true /\
   q_items_nopath (Q_items_contain [("path", VInt 1); ("a", VInt 2)]) = false /\
   leaf_in_c11 SValue (Q_items_contain [("path", VInt 1); ("a", VInt 2)]) = false.
@@ -1319,12 +1330,12 @@ Example C11_type_refused :
   roundtrip (L SValue (Q_equal_to (VType TInt))) = Err TypeError.
 Proof. vm_compute. reflexivity. Qed.
 
-(* (e) a mapping argument with an escaped key: equal condition, but the un-escaped keys move to
-   the end, so the data written again is the same mapping only up to `==` (key order) *)
+(* (e) a mapping argument with an escaped key: equal condition, and (since the repair of D48:
+   keys are un-escaped in place) the data written again is the same mapping in the same order *)
 Example C11_counterexample_key_order :
   roundtrip (L SValue (Q_equal_to (VDict [(VStr "path", VInt 1); (VStr "a", VInt 2)]))) =
   Ok (VDict [(VStr "value.equal_to", VDict [(VStr "\path", VInt 1); (VStr "a", VInt 2)])], true, true,
-      VDict [(VStr "value.equal_to", VDict [(VStr "a", VInt 2); (VStr "\path", VInt 1)])])
+      VDict [(VStr "value.equal_to", VDict [(VStr "\path", VInt 1); (VStr "a", VInt 2)])])
   /\ py_eq (VDict [(VStr "\path", VInt 1); (VStr "a", VInt 2)]) (VDict [(VStr "a", VInt 2); (VStr "\path", VInt 1)]) = true.
 Proof. vm_compute. split; reflexivity. Qed.
 
